@@ -1213,6 +1213,7 @@ func stageIdleStreamE2E(tcp bool) {
 	defer stream.Close()
 	src := newFlow("idle-src")
 	u, _ := base.ParseURL(ts.url("/stream"))
+	var between func() // run by the next reader after its DESCRIBE and before its SETUP
 	reader := func(tag string, first uint16, n int) (got, derrs int64, ok bool) {
 		f := newFlow(tag)
 		proto := gortsplib.ProtocolUDP
@@ -1229,6 +1230,10 @@ func stageIdleStreamE2E(tcp bool) {
 		}
 		defer cl.Close()
 		d, _, err := cl.Describe(u)
+		if err == nil && between != nil {
+			between()
+			between = nil
+		}
 		if err == nil {
 			err = cl.SetupAll(d.BaseURL, d.Medias)
 		}
@@ -1271,8 +1276,28 @@ func stageIdleStreamE2E(tcp bool) {
 	if !ok {
 		return
 	}
+	// reader C describes the stream, then takes its time: the stream crosses the wrap again BETWEEN its DESCRIBE and
+	// its SETUP. The key material of the SETUP response (roll-over counters as of SETUP time) is what counts, not the
+	// copy in the description it fetched earlier.
+	seq += n
+	for ; seq != 50000; seq++ { // back into the upper half
+		stream.WritePacketRTP(desc.Medias[0], src.makeRTP(96, seq)) //nolint:errcheck
+	}
+	between = func() {
+		for ; seq != 3000; seq++ { // ... and across the wrap while C sits between DESCRIBE and SETUP
+			stream.WritePacketRTP(desc.Medias[0], src.makeRTP(96, seq)) //nolint:errcheck
+		}
+	}
+	gotC, errC, ok := reader("idle-C", 3000, n)
+	if !ok {
+		return
+	}
+	if gotC < n*9/10 {
+		ctx.Failf(-1, "late-setup-reader-cannot-decrypt", name+": reader C does DESCRIBE at seq 50000, the stream runs on to seq 3000 (one wrap), then C does SETUP+PLAY",
+			"reader C decrypted %d of %d packets written after it joined (%d decode errors): it did not use the key material of the SETUP response", gotC, n, errC)
+	}
 	ctx.Kind("corpus:idle-stream-e2e")
-	ctx.Extra("idle_stream_e2e_"+map[bool]string{true: "tcp", false: "udp"}[tcp], map[string]any{"reader_a": gotA, "reader_a_errors": errA, "reader_b": gotB, "reader_b_errors": errB, "sent_each": n})
+	ctx.Extra("idle_stream_e2e_"+map[bool]string{true: "tcp", false: "udp"}[tcp], map[string]any{"reader_a": gotA, "reader_a_errors": errA, "reader_b": gotB, "reader_b_errors": errB, "reader_c": gotC, "reader_c_errors": errC, "sent_each": n})
 	if gotA < n*9/10 {
 		ctx.Failf(-1, "idle-stream-first-reader", name, "reader A (stream at seq 40001) decrypted %d of %d packets (%d decode errors)", gotA, n, errA)
 	}
